@@ -78,6 +78,13 @@ class Report:
                 if any((not i.ok) and i.rule == f["rule"] for i in self.items):
                     self.notes.append(f"{f['rule']}: {f['found']} {f['what']} (< floor {f['floor']}); a violation of the rule is reported")
                     continue
+                if any(not i.ok for i in self.items):
+                    # another rule of this property reports a violation: the edit that removed these instances is reported through it; if every
+                    # reported violation turns out to be a listed known finding the run still ends as an analysis error (see __main__.run_check)
+                    msg = f"{f['rule']}: only {f['found']} {f['what']} discovered, floor is {f['floor']} (anchor vanished or matcher rotted)"
+                    self.notes.append(msg + "; violations of other rules are reported")
+                    self.info.setdefault("aborted", msg)
+                    continue
                 raise AnalysisError(f"{f['rule']}: only {f['found']} {f['what']} discovered, floor is {f['floor']} (anchor vanished or matcher rotted)")
 
     def note(self, msg: str) -> None:
